@@ -1,6 +1,6 @@
 (* C08 -- An evaluation interrupted anywhere resumes to the same outcome. *)
 From Coq Require Import ZArith NArith Bool List.
-From Garden Require Import Base.Int64 Arith gen.Tables Machine MachineInv MachineSession MachineSessionProps.
+From Garden Require Import Base.Int64 Arith gen.Tables Machine MachineInv MachineSession MachineSessionProps MachineSessionLive.
 Import ListNotations.
 Open Scope nat_scope.
 
@@ -22,6 +22,19 @@ Theorem interrupted_run_equiv : forall p sched s1 s2,
   exists n, n <= length sched /\ same_result (run_int p sched s1) (run p n s2).
 Proof. exact interrupted_run_equiv. Qed.
 Print Assumptions interrupted_run_equiv.
+
+(* Liveness half: the interrupted run also gets as far.  If the uninterrupted run
+   finishes (value or error) within n loop iterations, then under EVERY schedule
+   that has at least n interrupt-free entries (one more if a Ctrl-C was already
+   pending) the interrupted-and-resumed run finishes too -- it cannot be starved or
+   lose its place -- with the same value / error, stack and output. *)
+Theorem interrupted_run_finishes : forall p sched s1 s2 n,
+  same_work s1 s2 -> interrupted s2 = false ->
+  out_of_fuel (run p n s2) = false ->
+  n + b2n (interrupted s1) <= nfalse sched ->
+  out_of_fuel (run_int p sched s1) = false /\ same_result (run_int p sched s1) (run p n s2).
+Proof. exact interrupted_run_finishes. Qed.
+Print Assumptions interrupted_run_finishes.
 
 Definition mt (u : bool) : meta := {| used := u; pstart := 0; pend := 0 |}.
 Definition ex_prog : prog := {| globals := [(5%N, VBuiltin BiPrintln)]; funs := [] |}.
